@@ -92,6 +92,9 @@ func ResetInterning() {
 	internMu.Lock()
 	interned = map[string]*Term{}
 	internMu.Unlock()
+	typeKeyMu.Lock()
+	typeKeyCache = map[types.Type]string{}
+	typeKeyMu.Unlock()
 }
 
 var (
@@ -103,12 +106,23 @@ func typeKey(t types.Type) string {
 	if t == nil {
 		return ""
 	}
+	// pointer and slice types are often built on the fly by the rules (a fresh types.Type each
+	// time): they are spelled from their element instead of being cached by identity
+	switch x := t.(type) {
+	case *types.Pointer:
+		return "*" + typeKey(x.Elem())
+	case *types.Slice:
+		return "[]" + typeKey(x.Elem())
+	}
 	typeKeyMu.Lock()
 	defer typeKeyMu.Unlock()
 	if s, ok := typeKeyCache[t]; ok {
 		return s
 	}
 	s := strings.ReplaceAll(types.TypeString(t, nil), "interface{}", "any") // one spelling for the empty interface
+	if len(typeKeyCache) > 1<<16 {
+		typeKeyCache = map[types.Type]string{}
+	}
 	typeKeyCache[t] = s
 	return s
 }
